@@ -407,3 +407,66 @@ func TestWire(t *testing.T) {
 		kit.Rec.Case(desc, true, "wire-carrier")
 	})
 }
+
+// ---- a multi-step history: lookup fails, configuration is completed through Set, lookup again -----
+
+type LazyCfg struct {
+	Port int    `value:"${c16r.port}"`
+	URL  string `value:"http://${c16r.host:localhost}:${c16r.port:80}/${c16r.path:}api"`
+}
+
+func (*LazyCfg) LazyInit()      {}
+func (*LazyCfg) Naming() string { return "lazy-cfg" }
+
+func TestRetryAfterSet(t *testing.T) {
+	kit.Rec.Rule(rule)
+	rapid.Check(t, func(t *rapid.T) {
+		cfg := map[string]any{}
+		steps := rapid.IntRange(1, 3).Draw(t, "steps")
+		lc := &LazyCfg{}
+		cb := &countingBinder{ViperBinder: binder.NewViperBinder("yaml"), budget: 100000}
+		out := kit.RunApp(app.SetConfigBinder(cb), app.SetConfigLoader(loader.NewRawLoader([]byte("pad: 1\n"))), app.SetComponents(lc))
+		if !out.OK() {
+			t.Fatalf("C16: start failed: %v", out)
+		}
+		var hist []string
+		for i := 0; i < steps; i++ {
+			// complete / change the configuration through the public Set
+			for _, k := range []string{"port", "host", "path"} {
+				if rapid.IntRange(0, 2).Draw(t, "set"+k) == 0 {
+					var v any
+					switch k {
+					case "port":
+						v = rapid.IntRange(1, 9999).Draw(t, "port")
+					case "host":
+						v = rapid.SampledFrom([]string{"go-kid.org", "h.x"}).Draw(t, "host")
+					default:
+						v = rapid.SampledFrom([]string{"v1/", "p/"}).Draw(t, "path")
+					}
+					out.App.Set("c16r."+k, v)
+					cfg["c16r."+k] = v
+					hist = append(hist, fmt.Sprintf("set %s=%v", k, v))
+				}
+			}
+			got, err := out.App.GetComponentByName("lazy-cfg")
+			hist = append(hist, fmt.Sprintf("lookup err=%v", err != nil))
+			_, hasPort := cfg["c16r.port"]
+			if !hasPort {
+				if err == nil {
+					t.Fatalf("C16: required ${c16r.port} is absent, yet the lookup succeeded with %+v\nhistory %v", got, hist)
+				}
+				continue
+			}
+			if err != nil {
+				t.Fatalf("C16: c16r.port is configured now (%v) but the lookup still fails: %v\nhistory %v", cfg["c16r.port"], err, hist)
+			}
+			r := &ref{cfg: cfg}
+			wantURL, _ := r.resolve("http://${c16r.host:localhost}:${c16r.port:80}/${c16r.path:}api", map[string]bool{})
+			if lc.Port != cfg["c16r.port"].(int) || lc.URL != wantURL {
+				t.Fatalf("C16: after %v the component holds Port=%d URL=%q, the configuration gives Port=%v URL=%q", hist, lc.Port, lc.URL, cfg["c16r.port"], wantURL)
+			}
+			break // created: later Sets do not re-bind a published singleton
+		}
+		kit.Rec.Case(strings.Join(hist, ";"), len(hist) >= 3, "retry-after-set")
+	})
+}
